@@ -1,6 +1,6 @@
 (* Properties/C07.v — Stop() always returns and loses nothing; a restart resumes all pending work. *)
 From GN Require Import Common.Base Common.Int64 Model.Loop Model.LoopSrc Model.LoopTime Gen.LoopSkeleton
-  Proofs.LoopFrame Proofs.LoopCtl Proofs.LoopTimers Proofs.LoopInv Proofs.LoopProps Proofs.LoopTime.
+  Proofs.LoopFrame Proofs.LoopCtl Proofs.LoopTimers Proofs.LoopInv Proofs.LoopProps Proofs.LoopTime Cases.LoopCheck Proofs.LoopReplay.
 Open Scope Z_scope.
 
 (* the stop request cannot be lost: once Stop() has stored canRun=0 and sent its token, the token is still in the channel
@@ -55,3 +55,9 @@ Print Assumptions C07_source_tie.
 Theorem C07_reach_nonvacuous : forall k, reach k init_after_setup.
 Proof. exact setup_reach. Qed.
 Print Assumptions C07_reach_nonvacuous.
+
+(* a controlled execution of the real loop whose log replays without difference ends in a reachable state of the model:
+   the theorems above apply to the executions the harness observes *)
+Theorem C07_checker_sound : forall k l s m, replay k init_after_setup mon0 l 0 = (s, m) -> m_diff m = None -> reach k s.
+Proof. exact replayed_state_reachable. Qed.
+Print Assumptions C07_checker_sound.
